@@ -122,10 +122,15 @@ fn random_perm(names: &[Name], src: &mut Src) -> BTreeMap<Name, Name> {
 }
 
 pub fn decode_hist(cfg: &HistCfg, chunks: &[Vec<u16>], naming_choice: u16) -> Hist {
+    decode_hist_from(cfg, chunks, naming_choice, &[])
+}
+
+/// like decode_hist, but `prior` terms already exist (indices of unions are global: prior terms first)
+pub fn decode_hist_from(cfg: &HistCfg, chunks: &[Vec<u16>], naming_choice: u16, prior: &[Tm]) -> Hist {
     let sig = cfg.lang.sig();
     let mut ops: Vec<HOp> = Vec::new();
-    let mut n_terms = 0usize;
-    let mut terms: Vec<Tm> = Vec::new();
+    let mut n_terms = prior.len();
+    let mut terms: Vec<Tm> = prior.to_vec();
     let total_w: usize = cfg.weights.iter().sum();
     let mk = |src: &mut Src| -> Tm { cap_fv(&gen_tm(&sig, &cfg.gen, src, 0), cfg.gen.max_fv) };
     for ch in chunks.iter().take(cfg.max_ops) {
